@@ -127,6 +127,7 @@ def rules(ctx):
         Rule("R02.a", "tag stores/loads move one byte (shared with C02)", 9, _reuse("c02", "r02a")),
         Rule("R02.b", "copy loops store exactly what their offset advances by and stay inside the object (shared with C02)", 3, _reuse("c02", "r02b")),
         Rule("R02.c", "aggregate copies are bounded by the destination type's size(), not stride() (shared with C02)", 6, _reuse("c02", "r02c")),
+        Rule("R02.j", "an assignment stores into its destination once, a whole value (shared with C02)", 3, _reuse("c02", "r02j")),
         Rule("R02.i", "an assignment compiles its destination (and its value) once on every path (shared with C02)", 2, _reuse("c02", "r02i")),
         Rule("R02.e", "every local owns its stack slot (shared with C02)", 2, _reuse("c02", "r02e")),
         Rule("R02.f", "write_all receives a converted value (shared with C02)", 5, _reuse("c02", "r02f")),
